@@ -128,7 +128,9 @@ OnEnter(s, e) ==
        ELSE IF cands # {} THEN
             LET byval == {c \in cands : KindOfV(chv(c)) = e.vk /\ SummaryOf(chv(c)) = e.sc}
                 byloc == {c \in cands : c.loc = e.loc}
-            IN IF byval # {} THEN Flag(s, ParentKindProps(F), "a child is entered at a location that is not its own position")
+            \* the right value at a wrong location: charged, and the child is followed at the position it should have (what it then
+            \* reports, or hands to user functions, at the wrong position is charged where it happens)
+            IN IF byval # {} THEN SoftFlag([s EXCEPT !.stack = push(pick(byval))], ParentKindProps(F), "a child is entered at a location that is not its own position")
                ELSE IF byloc # {} THEN Flag(s, ParentKindProps(F), "a child is handed a value that is not the payload's value at its location")
                ELSE Flag(s, ParentKindProps(F), "a child is entered with neither its own location nor its own value")
        ELSE \* no pending obligation leads to this node
@@ -172,7 +174,8 @@ OnErr(s0, e0) ==
         e == KeyLocNorm(s, e0) IN
     IF s.phase # "running" \/ Len(s.stack) = 0 THEN Flag(s, {"CONF"}, "report outside a running call")
     ELSE IF e.id \in s.made THEN Flag(s, {"C01"}, "a report id is used twice")
-    ELSE IF s.cur.stopped THEN Flag(s, {"C03"}, "a new report is produced although the error type answered stop and was never told to continue since")
+    ELSE IF s.cur.stopped THEN Flag([s EXCEPT !.reps = Append(@, ObsDesc(e)), !.repids = Append(@, e.id)], {"C03"},
+                                    "a new report is produced although the error type answered stop and was never told to continue since")
     ELSE
     LET F == Top(s.stack)
         N == Nodes[F.n]
@@ -240,12 +243,15 @@ OnMrg(s, e) ==
                                                !.ref1 = IF s.cur.isref /\ ~@.has THEN [has |-> TRUE, mj |-> e.mj, mq |-> e.mq] ELSE @,
                                                !.idp = Append(@, [id |-> F.fnp.id, ps |-> CASE F.fnp.k = "missing" -> {"C08"} [] F.fnp.k = "deny" -> {"C09"} [] OTHER -> {"C11"}])]
                       ELSE s1
+                \* (a deviating merge that is a report is still recorded as one: the result of the call is judged at the end)
+                s1r == IF isrep THEN [s1 EXCEPT !.reps = Append(@, FnDesc(F.fnp.f, e.loc)), !.repids = Append(@, F.fnp.id)] ELSE s1
                 locprops == CASE F.fnp.k = "missing" -> {"C08", "C04"} [] F.fnp.k = "deny" -> {"C09", "C04"} [] OTHER -> {"C11", "C04"}
             IN IF ~SameBag(e.other, c.ids) THEN Flag(s1, {"C11", "C01"}, "the error handed over is not the error the user function returned")
-               ELSE IF e.ety # c.ety THEN Flag(s1, {"C11"}, "a conversion error is merged under the wrong error type (field-level vs container)")
-               ELSE IF ~locok THEN Flag(s1, locprops, "a user function's error is handed over at the wrong location")
+               ELSE IF e.ety # c.ety THEN Flag(s1r, {"C11"}, "a conversion error is merged under the wrong error type (field-level vs container)")
+               ELSE IF ~locok THEN Flag(s1r, locprops, "a user function's error is handed over at the wrong location")
                ELSE IF isrep /\ F.fnp.id \in s.made THEN Flag(s1, {"C01", "C11"}, "a user function's error is reported twice")
-               ELSE IF isrep /\ s.cur.stopped THEN Flag(s1, {"C03"}, "a new report is produced although the error type answered stop and was never told to continue since")
+               ELSE IF isrep /\ s.cur.stopped THEN Flag([s1 EXCEPT !.reps = Append(@, FnDesc(F.fnp.f, e.loc)), !.repids = Append(@, F.fnp.id)], {"C03"},
+                                                         "a new report is produced although the error type answered stop and was never told to continue since")
                ELSE Seen([s2 EXCEPT !.stack = AfterFnMrg(s.stack, e.ans), !.cur = [@ EXCEPT !.stopped = (e.ans = "b")]], {"C11", "C04", "C01", "C03"})
        ELSE
             LET hs == {c \in Candidates(s.stack, s.cur) : c.e = "mrg" /\ c.ans = e.ans}
@@ -397,7 +403,15 @@ OnDone(s, e) ==
 \* A keep-going run that was already charged with a deviation still owes one report per independent fault of the payload: the
 \* missing fields, unknown keys, unknown values and wrong lengths that it never reported are charged to the properties that promise
 \* them (the machine is no longer followed, so only what the payload alone determines is judged: no user-function failures)
-DoneDegraded(s) ==
+\* ... and whatever happened, the result of the call is made of the reports the error type was asked to record (C01): Ok only
+\* when there was none, Err with exactly those
+DoneC01(s, e) ==
+    IF s.cur.etype # "rec" \/ s.cur.deep THEN s
+    ELSE IF e.ok /\ Len(s.repids) > 0 THEN SoftFlag(s, {"C01"}, "deserialize returns Ok although the error type was asked to record something")
+    ELSE IF ~e.ok /\ ~SameBag(e.ids, s.repids) THEN SoftFlag(s, {"C01"}, "the final error is not made of exactly the reports of the call")
+    ELSE s
+DoneDegraded(s0, e) ==
+    LET s == DoneC01(s0, e) IN
     IF ~(s.cur.allc /\ s.cur.etype = "rec" /\ ~s.cur.deep) THEN s
     ELSE LET faults == Faults(s.cur.ty, s.cur.val, <<>>, s.cur.pk, {})
              lost == {faults[j] : j \in {k \in 1..Len(faults) : faults[k].k \in {"missing", "unknownkey", "unknownvalue", "badlen"}
@@ -455,7 +469,7 @@ Step(s, e) ==
       [] e.e = "panic" -> Flag(s, {"C12"} \cup (IF s.cur.extra THEN {"C09"} ELSE {}) \cup (IF s.cur.perm THEN {"C15"} ELSE {}),
                                "deserialize panicked")      \* a panic is a fact, whatever happened before in the run
       [] s.cur.deep -> s                                                 \* deep nests are not spelled out: only totality is judged
-      [] e.e = "done"  -> GroupDone(IF s.runbad THEN DoneDegraded(s) ELSE OnDone(s, e), e)
+      [] e.e = "done"  -> GroupDone(IF s.runbad THEN DoneDegraded(s, e) ELSE OnDone(s, e), e)
       [] s.cur.etype # "rec" -> s
       [] OTHER ->
             LET p == PrefixStep(s, e) IN
